@@ -341,6 +341,15 @@ class Explorer:
             v = subst(st.value, env)
             self._record_calls(v, st.value, p, st)
             cur = subst(ast.fix_missing_locations(_as_load(st.target)), env)
+            if isinstance(st.op, ast.Add) and isinstance(cur, ast.List):
+                # list += iterable extends in place and accepts any iterable (unlike list + x)
+                new = copy.deepcopy(cur)
+                if isinstance(v, (ast.List, ast.Tuple)):
+                    new.elts.extend(v.elts)
+                else:
+                    new.elts.append(ast.Starred(value=v, ctx=ast.Load()))
+                self._bind(st.target, new, p, st)
+                return [p]
             self._bind(st.target, ast.BinOp(left=cur, op=st.op, right=v), p, st)
             return [p]
         if isinstance(st, ast.Expr):
